@@ -1,53 +1,139 @@
-import PolytuneModel.Proto.Circuit
-/-! C18 — documented-invalid arguments. `validateArgs` is a hand copy of `protocol.rs::validate` (to be replaced by the
-    translator's `Gen.validate`); note that the evaluator index is not even a parameter of it. -/
+import PolytuneModel.Proto.Validate
+/-! C18 — documented-invalid arguments. `validateArgs` (Proto/Validate.lean) models `protocol.rs::validate` of the current tree and is
+    compared with the real `mpc` on every generated tuple. `validate` is the first statement of `_mpc` and has no channel parameter, so
+    "rejected by `validateArgs`" is "rejected before any message". -/
 namespace PolytuneModel
 
-inductive ArgErr
-  | circuit (e : CircuitError) | partyDoesNotExist | wrongInputSize (expected actual : Nat) | missingOutputParties | invalidOutputParty (p : Nat)
-deriving Repr, DecidableEq
-
-def validateArgs (c : Circuit) (pOwn inputLen : Nat) (pOut : List Nat) : Except ArgErr Unit := do
-  match c.validate with
-  | .error e => throw (.circuit e)
-  | .ok _ => pure ()
-  let pMax := c.inputRegs.length
-  match c.inputRegs[pOwn]? with
-  | none => throw .partyDoesNotExist
-  | some expected => if expected ≠ inputLen then throw (.wrongInputSize expected inputLen)
-  if pOut.isEmpty then throw .missingOutputParties
-  for o in pOut do
-    if o ≥ pMax then throw (.invalidOutputParty o)
-  return ()
-
-def accepted (r : Except ArgErr Unit) : Bool := match r with | .ok _ => true | .error _ => false
-
-/-- sentence 1 of the property, for the arguments that ARE checked: each of these is refused (before any channel use:
-    `validate` is the first statement of `_mpc` and has no channel parameter). -/
-theorem C18_reject_own_index (c : Circuit) (pOwn len : Nat) (pOut : List Nat) (h : c.inputRegs.length ≤ pOwn) :
-    accepted (validateArgs c pOwn len pOut) = false := by
+/-- exactly when `validate` lets a call through. -/
+theorem validateArgs_ok_iff (c : Circuit) (pOwn len pEval : Nat) (pOut : List Nat) :
+    accepted (validateArgs c pOwn len pEval pOut) = true ↔
+      (∃ u, c.validate = .ok u) ∧ inputAfterGateIdx c = none ∧ c.inputRegs[pOwn]? = some len ∧ pEval < c.inputRegs.length
+      ∧ pOut ≠ [] ∧ badOutputParty c.inputRegs.length [] pOut = none := by
   unfold validateArgs accepted
-  have hn : c.inputRegs[pOwn]? = none := List.getElem?_eq_none_iff.mpr h
-  cases hv : c.validate <;> simp [hv, hn, bind, Except.bind, throw, throwThe, MonadExceptOf.throw, pure, Except.pure]
+  cases hv : c.validate with
+  | error e => simp
+  | ok u =>
+    cases hi : inputAfterGateIdx c with
+    | some w => simp
+    | none =>
+      cases hg : c.inputRegs[pOwn]? with
+      | none => simp
+      | some expected =>
+        by_cases h1 : pEval ≥ c.inputRegs.length
+        · simp [h1]; omega
+        · by_cases h2 : expected ≠ len
+          · simp [h1, h2]
+          · by_cases h3 : pOut.isEmpty = true
+            · simp [h1, h2, h3]; intro _ _ h; simp [List.isEmpty_iff.mp h3] at h
+            · cases hb : badOutputParty c.inputRegs.length [] pOut with
+              | some o => simp [h1, h2, h3, hb]
+              | none =>
+                have hne : pOut ≠ [] := fun h => h3 (by simp [h])
+                have h2' : expected = len := by simpa using h2
+                simp [h1, h2, h3, hne, hb, h2']; omega
 
-theorem C18_reject_invalid_circuit (c : Circuit) (pOwn len : Nat) (pOut : List Nat) (e : CircuitError) (h : c.validate = .error e) :
-    validateArgs c pOwn len pOut = .error (.circuit e) := by
-  simp [validateArgs, h, bind, Except.bind, throw, throwThe, MonadExceptOf.throw]
+theorem rejected_of_not (c : Circuit) (pOwn len pEval : Nat) (pOut : List Nat)
+    (h : ¬ ((∃ u, c.validate = .ok u) ∧ inputAfterGateIdx c = none ∧ c.inputRegs[pOwn]? = some len ∧ pEval < c.inputRegs.length
+      ∧ pOut ≠ [] ∧ badOutputParty c.inputRegs.length [] pOut = none)) : accepted (validateArgs c pOwn len pEval pOut) = false := by
+  cases ha : accepted (validateArgs c pOwn len pEval pOut) with
+  | false => rfl
+  | true => exact absurd ((validateArgs_ok_iff c pOwn len pEval pOut).mp ha) h
 
-theorem C18_reject_empty_pout (c : Circuit) (pOwn len : Nat) : accepted (validateArgs c pOwn len []) = false := by
-  unfold validateArgs accepted
-  cases hv : c.validate <;> cases ho : c.inputRegs[pOwn]? <;>
-    simp [hv, ho, bind, Except.bind, throw, throwThe, MonadExceptOf.throw, pure, Except.pure] <;> split <;> (try split at *) <;> simp_all
+/-! ### sentence 1: each documented-invalid argument is rejected -/
 
-/-! counterexamples on the pinned tree -/
+theorem C18_reject_invalid_circuit (c : Circuit) (pOwn len pEval : Nat) (pOut : List Nat) (e : CircuitError) (h : c.validate = .error e) :
+    validateArgs c pOwn len pEval pOut = .error (.circuit e) := by
+  simp [validateArgs, h]
+
+theorem C18_reject_own_index (c : Circuit) (pOwn len pEval : Nat) (pOut : List Nat) (h : c.inputRegs.length ≤ pOwn) :
+    accepted (validateArgs c pOwn len pEval pOut) = false := by
+  apply rejected_of_not; intro ⟨_, _, hg, _⟩
+  rw [List.getElem?_eq_none_iff.mpr h] at hg; simp at hg
+
+theorem C18_reject_peval (c : Circuit) (pOwn len pEval : Nat) (pOut : List Nat) (h : c.inputRegs.length ≤ pEval) :
+    accepted (validateArgs c pOwn len pEval pOut) = false := by
+  apply rejected_of_not; intro ⟨_, _, _, he, _⟩; omega
+
+theorem C18_reject_input_len (c : Circuit) (pOwn len pEval : Nat) (pOut : List Nat) (expected : Nat)
+    (hg : c.inputRegs[pOwn]? = some expected) (h : expected ≠ len) : accepted (validateArgs c pOwn len pEval pOut) = false := by
+  apply rejected_of_not; intro ⟨_, _, hg', _⟩; rw [hg] at hg'; simp at hg'; exact h hg'
+
+theorem C18_reject_empty_pout (c : Circuit) (pOwn len pEval : Nat) : accepted (validateArgs c pOwn len pEval []) = false := by
+  apply rejected_of_not; intro ⟨_, _, _, _, hne, _⟩; exact hne rfl
+
+theorem badOutputParty_of_mem (pMax : Nat) : ∀ (pOut seen : List Nat) (o : Nat), o ∈ pOut → pMax ≤ o → (badOutputParty pMax seen pOut).isSome = true
+  | [], _, _, h, _ => by simp at h
+  | x :: rest, seen, o, h, ho => by
+    unfold badOutputParty
+    by_cases hx : x ≥ pMax ∨ x ∈ seen
+    · simp [hx]
+    · simp only [hx, if_false]
+      rcases List.mem_cons.mp h with rfl | hm
+      · exact absurd (Or.inl ho) hx
+      · exact badOutputParty_of_mem pMax rest _ o hm ho
+
+theorem C18_reject_pout_index (c : Circuit) (pOwn len pEval : Nat) (pOut : List Nat) (o : Nat) (ho : o ∈ pOut) (h : c.inputRegs.length ≤ o) :
+    accepted (validateArgs c pOwn len pEval pOut) = false := by
+  apply rejected_of_not; intro ⟨_, _, _, _, _, hb⟩
+  have := badOutputParty_of_mem c.inputRegs.length pOut [] o ho h
+  rw [hb] at this; simp at this
+
+/-! ### sentence 2: an output list that repeats an index is rejected -/
+
+theorem badOutputParty_of_dup (pMax : Nat) : ∀ (pOut seen : List Nat), ¬ (seen ++ pOut).Nodup → seen.Nodup → (badOutputParty pMax seen pOut).isSome = true
+  | [], seen, h, hs => by simp at h; exact absurd hs h
+  | x :: rest, seen, h, hs => by
+    unfold badOutputParty
+    by_cases hx : x ≥ pMax ∨ x ∈ seen
+    · simp [hx]
+    · simp only [hx, if_false]
+      have hxs : x ∉ seen := fun hm => hx (Or.inr hm)
+      apply badOutputParty_of_dup pMax rest (seen ++ [x])
+      · simpa [List.append_assoc] using h
+      · rw [List.nodup_append]; refine ⟨hs, by simp, ?_⟩; intro a ha b hb; simp at hb; subst hb; intro hab; exact hxs (hab ▸ ha)
+
+theorem C18_reject_pout_repeats (c : Circuit) (pOwn len pEval : Nat) (pOut : List Nat) (h : ¬ pOut.Nodup) :
+    accepted (validateArgs c pOwn len pEval pOut) = false := by
+  apply rejected_of_not; intro ⟨_, _, _, _, _, hb⟩
+  have := badOutputParty_of_dup c.inputRegs.length pOut [] (by simpa using h) (by simp)
+  rw [hb] at this; simp at this
+
+/-- conversely, what is accepted has a duplicate-free, in-range output list — the hypothesis of C01/C05/C12. -/
+theorem badOutputParty_none (pMax : Nat) : ∀ (pOut seen : List Nat), badOutputParty pMax seen pOut = none → (∀ o ∈ pOut, o < pMax ∧ o ∉ seen) ∧ pOut.Nodup
+  | [], _, _ => by simp
+  | x :: rest, seen, h => by
+    unfold badOutputParty at h
+    by_cases hx : x ≥ pMax ∨ x ∈ seen
+    · simp [hx] at h
+    · simp only [hx, if_false] at h
+      have ih := badOutputParty_none pMax rest (seen ++ [x]) h
+      have hx' : x < pMax ∧ x ∉ seen := ⟨by omega, fun hm => hx (Or.inr hm)⟩
+      refine ⟨?_, ?_⟩
+      · intro o ho
+        rcases List.mem_cons.mp ho with rfl | hm
+        · exact hx'
+        · have := ih.1 o hm; exact ⟨this.1, fun hs => this.2 (List.mem_append_left _ hs)⟩
+      · rw [List.nodup_cons]; exact ⟨fun hm => (ih.1 x hm).2 (by simp), ih.2⟩
+
+theorem C18_accepted_pout_ok (c : Circuit) (pOwn len pEval : Nat) (pOut : List Nat) (h : accepted (validateArgs c pOwn len pEval pOut) = true) :
+    pOut.Nodup ∧ pOut ≠ [] ∧ (∀ o ∈ pOut, o < c.inputRegs.length) ∧ pEval < c.inputRegs.length ∧ pOwn < c.inputRegs.length := by
+  obtain ⟨_, _, hg, he, hne, hb⟩ := (validateArgs_ok_iff c pOwn len pEval pOut).mp h
+  have := badOutputParty_none _ _ _ hb
+  refine ⟨this.2, hne, fun o ho => (this.1 o ho).1, he, ?_⟩
+  exact Nat.lt_of_not_le fun hc => by rw [List.getElem?_eq_none_iff.mpr hc] at hg; simp at hg
+
+/-! ### sentence 3 (the gap between `Circuit.validate` and what `mpc` indexes): an `Input` after a gate is rejected -/
 def andCirc : Circuit := ⟨[1, 1], [⟨0, .input 0 0⟩, ⟨1, .input 1 0⟩, ⟨2, .and 0 1⟩], 3, [2], 1⟩
-
-/-- C18-a: the evaluator index is not validated at all — the check does not even receive it; any value is "accepted". -/
-theorem C18_cex_peval : ∀ _pEval : Nat, accepted (validateArgs andCirc 0 1 [0, 1]) = true := by intro _; decide
-/-- C18-b: a repeated output index passes. -/
-theorem C18_cex_pout_dup : accepted (validateArgs andCirc 0 1 [1, 1]) = true := by decide
-/-- C18-c: an `Input` instruction after a gate passes `validate` although the circuit is not well-formed for `mpc`. -/
 def inputAfterGate : Circuit := ⟨[1, 2], [⟨0, .input 0 0⟩, ⟨1, .input 1 0⟩, ⟨2, .and 0 1⟩, ⟨3, .input 1 1⟩, ⟨2, .xor 2 3⟩], 4, [2], 1⟩
-theorem C18_cex_input_after_gate : accepted (validateArgs inputAfterGate 0 1 [0]) = true ∧ inputAfterGate.wf = false := by decide
+
+/-- the circuit that used to panic every party (C18-c) passes `Circuit.validate`, is not well-formed, and is now refused. -/
+theorem C18_input_after_gate_rejected :
+    (match inputAfterGate.validate with | .ok _ => true | .error _ => false) = true ∧ inputAfterGate.wf = false
+    ∧ accepted (validateArgs inputAfterGate 0 1 0 [0]) = false ∧ inputAfterGateIdx inputAfterGate = some 3 := by decide
+
+/-- non-vacuity: a valid tuple is accepted. -/
+example : accepted (validateArgs andCirc 0 1 1 [0, 1]) = true := by decide
+/-- the former counterexamples C18-a (evaluator index 5 of 2) and C18-b (`[1,1]`) are rejected by the current `validate`. -/
+example : accepted (validateArgs andCirc 0 1 5 [0, 1]) = false ∧ accepted (validateArgs andCirc 0 1 0 [1, 1]) = false := by decide
 
 end PolytuneModel
